@@ -2028,6 +2028,7 @@ def probe(ctx):
                 ctx.probe_ok()
     gate_derivative_probe(ctx)
     qudit_probe(ctx)
+    buffer_reuse_probe(ctx)
     # reference gate arrays used for the model's reading of the vocabulary agree with the live constants
     G = numqi.gate
     live = dict(X=G.X, Y=G.Y, Z=G.Z, H=G.H, S=G.S, T=G.T, Swap=G.Swap)
@@ -2126,6 +2127,191 @@ def _steps_from_desc(desc):
     return out
 
 
+
+# ---------------------------------------------------------------------------
+# input class "buffer reuse across calls": r1 = f(A); r2 = f(B) with B != A of the same size; r1 must keep its value, must not share
+# memory with r2, and must still be right for A; then r1 is overwritten in place by the caller and f(B), f(A) must still be right.
+# Deterministic (seed-independent) block of the quick tier; numpy and torch where both are accepted.
+# ---------------------------------------------------------------------------
+
+def _leaves(r):
+    """the arrays / tensors / lists inside a result"""
+    if isinstance(r, (tuple,)):
+        return [x for e in r for x in _leaves(e)]
+    return [r]
+
+
+def _is_tensor(x):
+    return type(x).__module__.startswith('torch')
+
+
+def _np(x):
+    return x.detach().cpu().numpy() if _is_tensor(x) else np.asarray(x)
+
+
+def _snap_result(r):
+    return [(_np(x).copy() if not isinstance(x, list) else list(x)) for x in _leaves(r)]
+
+
+def _same_result(r, snap):
+    for x, s0 in zip(_leaves(r), snap):
+        if isinstance(x, list):
+            if list(x) != s0:
+                return False
+        else:
+            a = _np(x)
+            if a.shape != s0.shape or a.dtype != s0.dtype or not np.array_equal(a, s0, equal_nan=True):
+                return False
+    return True
+
+
+def _shares(x, y):
+    if x is y:
+        return True
+    if isinstance(x, list) or isinstance(y, list):
+        return False
+    if _is_tensor(x) and _is_tensor(y):
+        return x.numel() > 0 and y.numel() > 0 and x.untyped_storage().data_ptr() == y.untyped_storage().data_ptr()
+    if _is_tensor(x) or _is_tensor(y):
+        return bool(np.shares_memory(_np(x), _np(y)))
+    return isinstance(x, np.ndarray) and isinstance(y, np.ndarray) and bool(np.shares_memory(x, y))
+
+
+def _overwrite_result(r):
+    """the caller overwrites what it was given, in place (read-only results are left alone)"""
+    for x in _leaves(r):
+        try:
+            if isinstance(x, list):
+                for i in range(len(x)):
+                    x[i] = 7
+            elif _is_tensor(x):
+                x.fill_(7)
+            elif isinstance(x, np.ndarray):
+                x.fill(7)
+        except Exception:       # noqa: BLE001  (read-only buffer / tensor requiring grad: nothing to overwrite)
+            pass
+
+
+def reuse_history(f, A, B, prop):
+    """'' if the history [f(A), f(B)] leaves the first result intact (and both right), else what is wrong"""
+    try:
+        r1 = f(*A)
+        c1 = _snap_result(r1)
+        r2 = f(*B)
+        if not _same_result(r1, c1):
+            return 'the result of the first call changed when the routine was called with another input of the same size'
+        if r1 is r2 or any(_shares(x, y) for x in _leaves(r1) for y in _leaves(r2)):
+            return 'the results of two calls with different inputs share memory (the same buffer is handed out twice)'
+        if not prop(A, r1):
+            return 'the result of the first call is not right for its input'
+        if not prop(B, r2):
+            return 'the result of the second call is not right for its input'
+        _overwrite_result(r1)
+        r3 = f(*B)
+        r4 = f(*A)
+        if not prop(B, r3) or not prop(A, r4):
+            return 'after the caller overwrote the first result in place, a later call returns a wrong value'
+    except Exception as e:      # noqa: BLE001
+        return 'raised ' + type(e).__name__
+    return ''
+
+
+def _close_prop(oracle, tol=1e-12):
+    def prop(args, r):
+        want = oracle(*args)
+        got = _leaves(r)
+        want = want if isinstance(want, (list, tuple)) else [want]
+        return len(got) == len(want) and all(np.asarray(_np(g)).shape == np.asarray(w).shape and close(_np(g), w, tol) for g, w in zip(got, want))
+    return prop
+
+
+def _backends(*names):
+    out = [('numpy', lambda a: a)]
+    if 'torch' in names:
+        import torch
+        out.append(('torch', lambda a: torch.tensor(a) if isinstance(a, np.ndarray) else a))
+    return out
+
+
+def reuse_routines():
+    """(routine name, backend, [(A, B), …], f, prop): a handful of pairs per routine at the sizes where the property starts"""
+    import numqi
+    st, dm, G = numqi.sim.state, numqi.sim.dm, numqi.gate
+    rng = np.random.default_rng(20260930)
+    cst = lambda n: (rng.normal(size=2 ** n) + 1j * rng.normal(size=2 ** n))
+    cop = lambda k: (rng.normal(size=(2 ** k, 2 ** k)) + 1j * rng.normal(size=(2 ** k, 2 ** k)))
+    out = []
+    for bname, conv in _backends('torch'):
+        for n, t in [(1, (0,)), (2, (1,)), (3, (2, 0))]:
+            pairs = [((conv(cst(n)), conv(cop(len(t)))), (conv(cst(n)), conv(cop(len(t)))))]
+            out.append((f'apply_gate[n={n},t={t}]', bname, pairs, (lambda psi, U, t=t: st.apply_gate(psi, U, t)),
+                        _close_prop(lambda psi, U, t=t, n=n: oracle_embed(_np(U), t, n) @ _np(psi))))
+        for n, t in [(1, (0,)), (2, (1,))]:
+            rho = lambda n=n: (lambda v: np.outer(v, v.conj()))(cst(n))
+            pairs = [((conv(rho()), conv(cop(1))), (conv(rho()), conv(cop(1))))]
+            out.append((f'dm.apply_gate[n={n},t={t}]', bname, pairs, (lambda r_, U, t=t: dm.apply_gate(r_, U, t)),
+                        _close_prop(lambda r_, U, t=t, n=n: (lambda E: E @ _np(r_) @ E.conj().T)(oracle_embed(_np(U), t, n)), 1e-10)))
+        for name, (ref, na) in PARAM.items():
+            sc = [tuple(float(x) for x in rng.uniform(-3, 3, size=na)) for _ in range(2)]
+            ba = [tuple(rng.uniform(-3, 3, size=3) for _ in range(na)) for _ in range(2)]
+            if bname == 'torch':
+                import torch
+                sc = [tuple(torch.tensor(x, dtype=torch.float64) for x in a) for a in sc]
+                ba = [tuple(torch.tensor(x, dtype=torch.float64) for x in a) for a in ba]
+            out.append((f'numqi.gate.{name}[scalar]', bname, [(sc[0], sc[1])], (lambda *a, name=name: getattr(G, name)(*a)),
+                        _close_prop(lambda *a, ref=ref: ref(*[float(_np(x)) for x in a]))))
+            out.append((f'numqi.gate.{name}[batched]', bname, [(ba[0], ba[1])], (lambda *a, name=name: getattr(G, name)(*a)),
+                        _close_prop(lambda *a, ref=ref: np.stack([ref(*[float(_np(x)[i]) for x in a]) for i in range(3)]))))
+    for n, c, t in [(2, (0,), (1,)), (3, (2,), (0,)), (3, (0, 1), (2,))]:
+        pairs = [((cst(n), cop(1)), (cst(n), cop(1)))]
+        out.append((f'apply_control_n_gate[n={n},c={c},t={t}]', 'numpy', pairs, (lambda psi, U, c=c, t=t: st.apply_control_n_gate(psi, U, set(c), t)),
+                    _close_prop(lambda psi, U, c=c, t=t, n=n: oracle_ctrl(U, c, t, n) @ psi)))
+    for n, keep in [(1, (0,)), (2, (0,)), (3, (0, 2))]:
+        out.append((f'reduce_to_probability[n={n},keep={keep}]', 'numpy', [((cst(n),), (cst(n),))], (lambda psi, keep=keep: st.reduce_to_probability(psi, set(keep))),
+                    _close_prop(lambda psi, keep=keep, n=n: oracle_marginal(psi, list(keep), n), 1e-10)))
+    # stateful objects: one Circuit called with two states; two Circuit objects of the same size, interleaved
+    progs = [[('H', (0,)), ('cnot', (0,), (1,)), ('rx', (1,), (0.3,))], [('S', (1,)), ('ry', (0,), (1.1,)), ('cz', (1,), (0,))]]
+    circs = [build_circuit(p_) for p_ in progs]
+    mats = [oracle_program_matrix(step_semantics(('extend', p_)), 2) for p_ in progs]
+    out.append(('Circuit.apply_state[one object, two states]', 'numpy', [((0, cst(2)), (0, cst(2)))], (lambda i, psi: circs[i].apply_state(psi)),
+                _close_prop(lambda i, psi: mats[i] @ psi, 1e-10)))
+    out.append(('Circuit.apply_state[two objects interleaved]', 'numpy', [((0, cst(2)), (1, cst(2)))], (lambda i, psi: circs[i].apply_state(psi)),
+                _close_prop(lambda i, psi: mats[i] @ psi, 1e-10)))
+    out.append(('Circuit.to_unitary[two objects interleaved]', 'numpy', [((0,), (1,))], (lambda i: circs[i].to_unitary()),
+                _close_prop(lambda i: mats[i], 1e-10)))
+    return out
+
+
+def buffer_reuse_probe(ctx, routines=None, pid='C03'):
+    for name, backend, pairs, f, prop in (routines if routines is not None else reuse_routines()):
+        for i, (A, B) in enumerate(pairs):
+            bad = reuse_history(f, A, B, prop)
+            ctx.count('buffer-reuse')
+            if bad:
+                fn = name.split('[')[0]
+                ctx.fail(f'{fn}:result-overwritten-by-next-call', f'{name} ({backend}), history [f(A), f(B)] with B != A of the same size: {bad}',
+                         dict(fn='buffer-reuse', routine=name, backend=backend, pair=i,
+                              history=[repr([(_np(x).tolist() if not isinstance(x, (int, float)) else x) for x in A])[:1500],
+                                       repr([(_np(x).tolist() if not isinstance(x, (int, float)) else x) for x in B])[:1500]]))
+            else:
+                ctx.probe_ok(('buffer-reuse', name, backend, i))
+
+
+def replay_buffer_reuse(r, routines, pid):
+    hit = [(name, backend, pairs, f, prop) for name, backend, pairs, f, prop in routines if name == r.get('routine') and backend == r.get('backend')]
+    if not hit:
+        print(f"replay: unknown routine {r.get('routine')}"); return 2
+    name, backend, pairs, f, prop = hit[0]
+    A, B = pairs[int(r.get('pair', 0))]
+    bad = reuse_history(f, A, B, prop)
+    if bad:
+        print(f'replay: {name} ({backend}), history [f(A), f(B)]: {bad}')
+        print(f'VIOLATION property={pid} replay={_replay_path()}')
+        return 1
+    print(f'replay: {name} ({backend}): the first result now survives the second call')
+    return 0
+
+
 def _replay_path():
     import sys
     return sys.argv[sys.argv.index('--replay') + 1] if '--replay' in sys.argv[:-1] else 'recorded-input'
@@ -2162,6 +2348,8 @@ def replay(ctx, payload):
             print(f'VIOLATION property=C03 replay={_replay_path()}')
         return 1 if bad else 0
     approx = False
+    if fn == 'buffer-reuse':
+        return replay_buffer_reuse(r, reuse_routines(), 'C03')
     if fn == 'Circuit.history':
         first = replay_history(eval(r['actions'], {'__builtins__': {}}, {}))
         if first is None:
